@@ -27,6 +27,26 @@ def normalize(v, t):
     return (1.0 / np.sqrt(total)) * (v - c)
 
 
+def inside_out_violation(v, t):
+    """a closed, consistently but inward oriented surface: tria_spherical_project may reject it (ValueError); if it returns a mesh, that mesh
+    has the input's triangles and the input's (inward) orientation"""
+    with core.quiet():
+        m = TriaMesh(np.array(v, float), np.array(t))
+    for attempt in range(6):          # the eigensolver's random start vector decides signs: several tries
+        r = core.call(diffgeo.tria_spherical_project, m, 3)
+        if r[0] == "err" and r[1] == "ValueError":
+            continue
+        if r[0] == "err":
+            return "raised %s: %s" % (r[1], r[2])
+        out = r[1]
+        if not np.array_equal(out.t, t):
+            return "an inside-out input is returned with other triangles than it was given (connectivity not preserved)"
+        with core.quiet():
+            if out.volume() > 0:
+                return "an inside-out input is returned outward oriented"
+    return None
+
+
 def star_sphere(rng, level=2, amp=0.25):
     v, t = gen.icosphere(level)
     r = 1 + amp * (np.sin(3 * v[:, 0]) * np.cos(2 * v[:, 1]) + 0.5 * np.sin(4 * v[:, 2] + rng.uniform(0, 3)))
@@ -109,6 +129,13 @@ class Check(BaseCheck):
                 fails.append(core.Failure("correspondence", "flow: result vs model iterate", "", case))
             if len(fails) > 5:
                 break
+        # an inside-out surface is rejected or keeps its triangles and its orientation
+        ev_, et_ = ellipsoid_y(gen.rng_for(self.seed, "c19io"))
+        stats.case("project-inside-out", cls="project:inside-out")
+        what = inside_out_violation(ev_, np.asarray(et_)[:, [0, 2, 1]])
+        if what is not None:
+            fails.append(core.Failure("correspondence", "spherical projection of an inside-out surface", what,
+                                      dict(kind="project-inside-out", v=ev_, t=np.asarray(et_)[:, [0, 2, 1]], name="ellipsoid-y-inside-out")))
         # projection pieces
         rng = gen.rng_for(self.seed, "c19p")
         pts = rng.normal(size=(6, 3))
@@ -197,6 +224,8 @@ class Check(BaseCheck):
             v, t = ellipsoid_y(rng, x_second=bool(k % 2))
             yield dict(kind="project", v=v, t=t, name="ellipsoid-y" + ("-x-second" if k % 2 else ""))
         yield dict(kind="project-open", v=gen.grid(3, 3)[0], t=gen.grid(3, 3)[1], name="grid")
+        v, t = ellipsoid_y(rng)
+        yield dict(kind="project-inside-out", v=v, t=np.asarray(t)[:, [0, 2, 1]], name="ellipsoid-y-inside-out")
 
     def oracle(self, case):
         kind = case["kind"]
@@ -248,6 +277,9 @@ class Check(BaseCheck):
             if np.max(np.abs(so.v - sn.v)) > 2e-3:
                 return core.Violation("flow-sphere", "round sphere is not a fixed point up to discretisation (max move %.3g)" % np.max(np.abs(so.v - sn.v)), case)
             return None
+        if kind == "project-inside-out":
+            what = inside_out_violation(v, t)
+            return None if what is None else core.Violation("project-orientation", what, case)
         if kind == "project-open":
             with core.quiet():
                 m = TriaMesh(v, t)
